@@ -90,6 +90,12 @@ CHECKS = {
             'From the trace alone: after every matching phase (minute or fast-mode chunk) an open position whose phase range contains the liquidation price must be force-closed at once by exactly one reduce-only market fill '
             'of the whole position at the bankruptcy price, counted in total_liquidations, losing initial margin plus fees, with nothing left active; any other force-close is spurious; none in cross or spot.',
             'tick = entry*1e-4; leverages {1,2,5,25,125} quick / 10 values thorough.', 'DESIGN.md 3/C09'),
+    'C10': ('session', 'exhaustive enumeration of declaration scenarios (site x rows x price relation around the 0.015 percent boundary x side x modification scripts) through real backtests with a trace oracle',
+            'Every scenario declares entries/exits in go_long/go_short, on_open_position, update_position (all ordered pairs of 7 modifications followed by a return to the first declaration), on_reduced_position '
+            'or via liquidate(), with prices at relations 0, +-1e-7, +-(0.015% -+ 1e-7), +-1%, +-5% to the current price, long and short, futures and spot. From the trace: every submitted order has the type its '
+            'price relation prescribes, the declared quantity and price, exits are reduce-only and on the closing side; after every strategy step the active stop-loss/take-profit orders map injectively into '
+            'the rows of the latest declaration, none remains once the position is closed; resting entries are cancelled exactly when should_cancel_entry() answered yes.',
+            'Flat candles, so only routing decides what fills. Within 1e-9 of the threshold either type is accepted.', 'DESIGN.md 3/C10'),
 }
 
 NOT_APPLICABLE = {}
